@@ -23,6 +23,10 @@ import (
 //	specificity sort       a sort of a []string in a function that also applies a reverser              -> O2
 //	sort-all               a range over a route.Table whose body sorts the element of type route.Routes  -> O1
 //	command appliers       functions with a route.Table and a *route.RouteDef parameter                  -> O1
+//	glob-mode key loop     a host matcher's loop that holds a glob Match comparison site                 -> G1 (c03_round4.go)
+//	memo load              a value taken out of a sync.Map / map / cache Get, or a remembered last result
+//	                       in a package-level variable or field, on the way to the host keys tried by
+//	                       Table.Lookup or to the target it returns                                      -> M1 (c03_round4.go), O2
 //
 // Named anchors are exported API only: route.NewTable, route.NewTableCustom, route.Table.Lookup.
 func init() {
@@ -39,12 +43,17 @@ func init() {
 func runC03(c *Ctx) {
 	c03BuildInvoked(c)
 	r := c03FindRoles(c)
+	c03CurRoles = r
 	runC03N1(c, r)
 	c03TableKeys(c)
 	runC03O1(c)
 	runC03O2O3(c, r)
 	runC03L1(c, r)
 }
+
+// c03CurRoles: the roles found by the last runC03 (the round-4 rules of c03_round4.go run right after it on the same
+// program and reuse them).
+var c03CurRoles *c03Roles
 
 // ---- small local helpers (copies of helpers that live in other properties' files, so that this file only depends
 // on the shared core) ---------------------------------------------------------------------------------------------
